@@ -440,6 +440,31 @@ def oracle(cfg, res):
             return "scheduler quiescent with pending items"
     if not cfg.get("xie") and len(loop_threads) > 1:
         return f"more than one loop thread ran actions without exit_if_empty: {sorted(loop_threads)}"
+    # cross order between timed and immediately-due actions ("in due-time order"): the loop merges what is pending by due time.
+    #  X1: a timed action T with T.due < I.due, submitted before the loop gathered the immediate action I, is taken before I;
+    #  X2: an immediate action I with I.due < T.due, submitted before the loop gathered the timed action T, is taken before T
+    #      (only claimed when the immediate submissions up to I were made in non-decreasing due order, i.e. no racing/past-due
+    #      submission left the ready list itself out of due order).
+    sub_pos = {lbl: p for p, lbl, _ in submitted}
+    is_imm = {lbl: im for _, lbl, im in submitted}
+    gathered_at = {}
+    for pos, e in enumerate(events):
+        if e[0] is not None and e[1] == "ready_append" and e[2] not in gathered_at:
+            gathered_at[e[2]] = pos
+    take_idx = {lbl: i for i, lbl in enumerate(taken)}
+    imm_seq = [(p, lbl) for p, lbl, im in submitted if im]
+    for a in taken:
+        for b in taken:
+            if a == b or a not in item_due or b not in item_due or a not in sub_pos or b not in sub_pos:
+                continue
+            if not is_imm[a] and is_imm[b] and item_due[a] < item_due[b] and sub_pos[a] < gathered_at.get(b, -1) and take_idx[a] > take_idx[b]:
+                return (f"timed action {a} (due {item_due[a]}) was pending when the loop gathered the immediately-due action {b} "
+                        f"(due {item_due[b]}) but ran after it (not in due-time order)")
+            if is_imm[a] and not is_imm[b] and item_due[a] < item_due[b] and sub_pos[a] < gathered_at.get(b, -1) and take_idx[a] > take_idx[b]:
+                before = [item_due[l] for p, l in imm_seq if p <= sub_pos[a] and l in item_due]
+                if before == sorted(before):
+                    return (f"immediately-due action {a} (due {item_due[a]}) was pending when the loop gathered the timed action {b} "
+                            f"(due {item_due[b]}) but ran after it (not in due-time order)")
     # a single dedicated thread: never two loop threads alive at once; without exit_if_empty never a second one at all
     alive = set()
     nstarted = 0
